@@ -8,6 +8,7 @@ import (
 	"go/constant"
 	"go/token"
 	"go/types"
+	"os"
 	"sort"
 	"strings"
 
@@ -56,8 +57,20 @@ func fnName(f *ssa.Function) string {
 			n := tf.FullName()
 			if c, ok := canonObj[tf]; ok {
 				// report a renamed function under its baseline name
-				short := c[strings.LastIndex(c, ".")+1:]
-				n = n[:strings.LastIndex(n, ".")+1] + short
+				// (also when a function became a method or the reverse: the name is rebuilt from the baseline key)
+				pkgPath := ""
+				if tf.Pkg() != nil {
+					pkgPath = tf.Pkg().Path()
+				}
+				switch {
+				case strings.HasPrefix(c, "(*"):
+					n = "(*" + pkgPath + "." + c[2:]
+				case strings.Contains(c, "."):
+					i := strings.LastIndex(c, ".")
+					n = "(" + pkgPath + "." + c[:i] + ")" + c[i:]
+				default:
+					n = pkgPath + "." + c
+				}
 			}
 			// strings.Builder and bytes.Buffer are interchangeable append-only string accumulators for
 			// the methods the rules look at; the rules are written for (*bytes.Buffer).
@@ -894,4 +907,271 @@ func helperOnlyOf(p *Program, h *ssa.Function, pred func(f *ssa.Function) bool, 
 		}
 	}
 	return n > 0
+}
+
+// zeroResultAt: result #idx of this return is the zero value: the zero constant, or a local (a named result) that
+// no store can have written on any way to this return.
+func zeroResultAt(ret *ssa.Return, idx int) bool {
+	if idx >= len(ret.Results) {
+		return false
+	}
+	v := ret.Results[idx]
+	if os.Getenv("ZERO_DEBUG") != "" {
+		fmt.Fprintf(os.Stderr, "zeroResultAt %s: %T %s\n", ret.Parent().Name(), v, v)
+		if u, ok := v.(*ssa.UnOp); ok {
+			if al, ok := u.X.(*ssa.Alloc); ok {
+				for _, ref := range *al.Referrers() {
+					fmt.Fprintf(os.Stderr, "   ref %T %s (block %d)\n", ref, ref, ref.Block().Index)
+				}
+			}
+		}
+	}
+	if k, ok := v.(*ssa.Const); ok {
+		return k.Value == nil
+	}
+	u, ok := v.(*ssa.UnOp)
+	if !ok || u.Op != token.MUL {
+		return false
+	}
+	al, ok := u.X.(*ssa.Alloc)
+	if !ok {
+		return false
+	}
+	reaches := func(in ssa.Instruction) bool {
+		if in.Block() == ret.Block() {
+			return before(in, ret)
+		}
+		return forwardReach(in.Block(), ret.Block())
+	}
+	var check func(addr ssa.Value, depth int) bool
+	check = func(addr ssa.Value, depth int) bool {
+		if depth > 3 {
+			return false
+		}
+		for _, ref := range *addr.Referrers() {
+			switch x := ref.(type) {
+			case *ssa.Store:
+				if x.Addr == addr && reaches(x) && !selfStore(x) {
+					// storing the zero value again (an explicit "T{}" in a return with named results) changes nothing
+					if k, isK := x.Val.(*ssa.Const); !isK || k.Value != nil || depth > 0 {
+						return false
+					}
+				}
+				if x.Val == addr {
+					return false // the address escapes
+				}
+			case *ssa.FieldAddr:
+				if !check(x, depth+1) {
+					return false
+				}
+			case *ssa.IndexAddr:
+				if !check(x, depth+1) {
+					return false
+				}
+			case *ssa.UnOp, *ssa.DebugRef:
+			case ssa.CallInstruction:
+				// handed to a call (a deferred closure captures it through a free variable, not here)
+				if reaches(x) {
+					return false
+				}
+			default:
+				return false
+			}
+		}
+		return true
+	}
+	// a closure that captures the result (a deferred function that assigns it) may write it
+	for _, ref := range *al.Referrers() {
+		if _, isMC := ref.(*ssa.MakeClosure); isMC {
+			return false
+		}
+	}
+	return check(al, 0)
+}
+
+// pathResult: what one acyclic path to a return leaves in a pair of named results (value, error).
+type pathResult struct {
+	ValStore  *ssa.Store // the last store to the value result on the path (nil: still the zero value)
+	ValZero   bool       // the value result is the zero value on this path
+	ErrNil    bool       // the error result is certainly nil on this path
+	ErrNonNil bool       // the error result is certainly non-nil on this path
+}
+
+// pairedResults follows every path of the loop-free function of ret to ret and reports, per path, the state of
+// the value result (a named result kept in a variable) and of the error result (a variable, or an SSA value whose
+// phis are resolved by the path) that ret returns. ok is false when the value result is not a load of a local
+// variable, the function has a loop, or a result variable is reachable by something other than direct loads and stores.
+func pairedResults(ret *ssa.Return, idxVal, idxErr int) ([]pathResult, bool) {
+	fn := ret.Parent()
+	if idxVal >= len(ret.Results) || idxErr >= len(ret.Results) || hasLoop(fn) {
+		return nil, false
+	}
+	allocOf := func(v ssa.Value) *ssa.Alloc {
+		u, ok := v.(*ssa.UnOp)
+		if !ok || u.Op != token.MUL {
+			return nil
+		}
+		al, _ := u.X.(*ssa.Alloc)
+		return al
+	}
+	av, ae := allocOf(ret.Results[idxVal]), allocOf(ret.Results[idxErr])
+	if av == nil {
+		return nil, false
+	}
+	for _, al := range []*ssa.Alloc{av, ae} {
+		if al == nil {
+			continue
+		}
+		for _, ref := range *al.Referrers() {
+			switch x := ref.(type) {
+			case *ssa.UnOp, *ssa.DebugRef:
+			case *ssa.Store:
+				if x.Val == ssa.Value(al) {
+					return nil, false
+				}
+			case *ssa.FieldAddr:
+				// a composite literal assigned to the result is built in place: stores to its fields
+				for _, r2 := range *x.Referrers() {
+					if st, ok := r2.(*ssa.Store); !ok || st.Addr != ssa.Value(x) {
+						if _, dbg := r2.(*ssa.DebugRef); !dbg {
+							return nil, false
+						}
+					}
+				}
+			default:
+				return nil, false
+			}
+		}
+	}
+	type state struct {
+		valStore          *ssa.Store
+		errNil, errNonNil bool
+		cur               map[ssa.Value]bool // loads of the error variable that still show its current value
+		known             map[ssa.Value]int  // values tested against nil on the path: 1 nil, 2 non-nil
+		path              []*ssa.BasicBlock
+	}
+	var out []pathResult
+	paths := 0
+	resolve := func(v ssa.Value, path []*ssa.BasicBlock) ssa.Value {
+		for i := 0; i < 6; i++ {
+			ph, ok := v.(*ssa.Phi)
+			if !ok {
+				break
+			}
+			found := false
+			for k := len(path) - 1; k >= 1 && !found; k-- {
+				if path[k] == ph.Block() {
+					for j, pr := range ph.Block().Preds {
+						if pr == path[k-1] {
+							v, found = ph.Edges[j], true
+						}
+					}
+					break
+				}
+			}
+			if !found {
+				break
+			}
+		}
+		return v
+	}
+	var walk func(b *ssa.BasicBlock, st state, depth int) bool
+	walk = func(b *ssa.BasicBlock, st state, depth int) bool {
+		paths++
+		if depth > 200 || paths > 4000 {
+			return false
+		}
+		cur := map[ssa.Value]bool{}
+		for k := range st.cur {
+			cur[k] = true
+		}
+		st.cur = cur
+		known := map[ssa.Value]int{}
+		for k, v := range st.known {
+			known[k] = v
+		}
+		st.known = known
+		st.path = append(append([]*ssa.BasicBlock{}, st.path...), b)
+		for _, in := range b.Instrs {
+			switch x := in.(type) {
+			case *ssa.UnOp:
+				if ae != nil && x.Op == token.MUL && x.X == ssa.Value(ae) {
+					st.cur[x] = true
+				}
+			case *ssa.Store:
+				if selfStore(x) {
+					continue
+				}
+				if x.Addr == ssa.Value(av) {
+					st.valStore = x
+					if isZeroConst(x.Val) {
+						st.valStore = nil
+					}
+				}
+				if fa, ok := x.Addr.(*ssa.FieldAddr); ok && fa.X == ssa.Value(av) {
+					st.valStore = x // a field of the result is written in place
+				}
+				if ae != nil && x.Addr == ssa.Value(ae) {
+					st.cur = map[ssa.Value]bool{}
+					st.errNil, st.errNonNil = false, false
+					if k, ok := x.Val.(*ssa.Const); ok && k.Value == nil {
+						st.errNil = true
+					} else if provenError(unIface(x.Val)) || nonNilInterface(x.Val) {
+						st.errNonNil = true
+					}
+				}
+			case *ssa.Return:
+				if x == ret {
+					pr := pathResult{ValStore: st.valStore, ValZero: st.valStore == nil, ErrNil: st.errNil, ErrNonNil: st.errNonNil}
+					if ae == nil {
+						ev := resolve(ret.Results[idxErr], st.path)
+						pr.ErrNil, pr.ErrNonNil = false, false
+						if k, ok := ev.(*ssa.Const); ok && k.Value == nil {
+							pr.ErrNil = true
+						} else if provenError(unIface(ev)) || nonNilInterface(ev) {
+							pr.ErrNonNil = true
+						} else if st.known[ev] == 1 {
+							pr.ErrNil = true
+						} else if st.known[ev] == 2 {
+							pr.ErrNonNil = true
+						}
+					}
+					out = append(out, pr)
+				}
+				return true
+			case *ssa.If:
+				tSt, fSt := st, st
+				if bo, ok := x.Cond.(*ssa.BinOp); ok && (bo.Op == token.EQL || bo.Op == token.NEQ) {
+					if k, ok := bo.Y.(*ssa.Const); ok && k.Value == nil {
+						tv, fv := 1, 2
+						if bo.Op == token.NEQ {
+							tv, fv = 2, 1
+						}
+						if st.cur[bo.X] {
+							tSt.errNil, tSt.errNonNil = tv == 1, tv == 2
+							fSt.errNil, fSt.errNonNil = fv == 1, fv == 2
+						}
+						subj := resolve(bo.X, st.path)
+						tk, fk := map[ssa.Value]int{}, map[ssa.Value]int{}
+						for k, v := range st.known {
+							tk[k], fk[k] = v, v
+						}
+						tk[subj], fk[subj] = tv, fv
+						tSt.known, fSt.known = tk, fk
+					}
+				}
+				return walk(b.Succs[0], tSt, depth+1) && walk(b.Succs[1], fSt, depth+1)
+			case *ssa.Jump:
+				return walk(b.Succs[0], st, depth+1)
+			case *ssa.Panic:
+				return true
+			}
+		}
+		return true
+	}
+	// the named results start as zero / nil
+	if !walk(fn.Blocks[0], state{errNil: true, cur: map[ssa.Value]bool{}, known: map[ssa.Value]int{}}, 0) {
+		return nil, false
+	}
+	return out, true
 }
